@@ -4,6 +4,7 @@ concrete definition, run the real inspect() and report the observed entries."""
 import copy
 import json
 import multiprocessing as mp
+from .par import pmap
 import os
 import re
 
@@ -156,6 +157,5 @@ def inspect_groups(defs, faults, seed=0, cap=None):
             jobs.append((d, f["fault"], f["expect"], ("yaql", "jinja")[(i + seed) % 2], (i // 2 + seed) % 4))
     if cap and len(jobs) > cap:
         jobs = rng.sample(jobs, cap)
-    with mp.Pool(16) as pool:
-        outs = pool.map(_job, jobs, chunksize=16)
+    outs = pmap(_job, jobs)
     return [o for o in outs if "error" not in o], [o for o in outs if "error" in o]
